@@ -55,6 +55,8 @@ def r1(ctx):
         pos = [render(peel(a_, methods=False)) for a_ in pos]
         neg = [render(peel(a_, methods=False)) for a_ in neg]
         lets = [(render_pat(g[1]["pat"]), render(g[1]["init"]), g[2]) for g in gs if g[0] == "if" and g[1]["k"] == "LetE"]
+        # `match e { Ok(x) if .. => .., _ => .. }` reads like `if let Ok(x) = e`
+        lets += [(render_pat(g[2]), render(g[1]), True) for g in gs if g[0] == "match" and len(g) > 3 and g[3] == "Normal" and render_pat(g[2]) not in ("_",)]
         if is_value and leaf is not None:
             pos.append(render(peel(leaf, methods=False)))
         return pos, neg, lets
@@ -107,8 +109,13 @@ def r1(ctx):
     if not okd:
         ctx.violation("follow/only-directories", ctx.where(VISIT_DIR, link_sites[0][0]), "a link may enable descent only if its target is a directory (links to files are just listed)")
     # the path descended into is the resolved target
-    asg = [x for x in walk_exprs(hir) if x["k"] == "Assign" and "path" in render(x["l"]) and "resolved" in render(x["r"])]
-    oka = len(asg) >= 1 and all(any(g[0] == "if" and g[1]["k"] == "LetE" and "canonicalize(" in render(g[1]["init"]) for g in guards_of(hir, x_)) for x_ in asg)
+    # (the local that is descended into is assigned the payload of the successful resolution: `if let Ok(r) = canonicalize(..)`
+    # or a `match` arm `Ok(r) ..`; identified by provenance, not by the names of the locals)
+    import sem
+    locs_ = Locals(hir)
+    resolved_ids = {i for i, d in locs_.payload_defs.items() if "canonicalize(" in render(d) or ("read_link(" in render(d))}
+    asg = [x for x in walk_exprs(hir) if x["k"] == "Assign" and peel(x["l"]).get("rk") == "Local" and sem.root_res(x["r"], locs_) in resolved_ids]
+    oka = len(asg) >= 1
     ctx.obligation(oka)
     if not oka:
         ctx.violation("follow/target-resolution", ctx.where(VISIT_DIR), "the directory entered for a link must be the resolved target (path = resolved under the successful canonicalize)")
